@@ -26,6 +26,11 @@ def creator_programs(grid, entries):
     bycls = collections.OrderedDict()
     for it in grid:
         bycls.setdefault((it["kind"], it["cls"]), []).append(it)
+    from splink.internals.column_expression import ColumnExpression
+    hints = {"ColumnExpression": {ColumnExpression},
+             "ComparisonLevelCreator": {it["cls"] for it in grid if it["kind"] == "level"},
+             "BlockingRuleCreator": {it["cls"] for it in grid if it["kind"] == "blocking"},
+             "ComparisonCreator": {it["cls"] for it in grid if it["kind"] == "comparison"}}
     out = []
     for (kind, cls), items in bycls.items():
         samples = []
@@ -34,10 +39,16 @@ def creator_programs(grid, entries):
                 samples.append(it["make"]())
             except Exception:      # reported by the correspondence stage with the grid item as input
                 pass
-        for entry in list(entries[kind]) + ["__init__"]:
+        extra = ["__init__", "__init__(arguments)"] + (["from_path_or_dict(arguments)"] if kind == "settings" else [])
+        for entry in list(entries[kind]) + extra:
             name = f"{cls.__module__.split('.')[-1]}.{cls.__name__}.{entry}"
             try:
-                r = E.analyse_constructor(cls, samples, dcls) if entry == "__init__" else E.analyse(cls, entry, samples, dcls)
+                if entry.endswith("(arguments)"):
+                    r = E.analyse_arguments(cls, entry.split("(")[0], samples, dcls, hints)
+                elif entry == "__init__":
+                    r = E.analyse_constructor(cls, samples, dcls)
+                else:
+                    r = E.analyse(cls, entry, samples, dcls)
             except Exception as e:       # analyser failure = unknown effects (fail-closed)
                 r = {"program": [("mut", f"<unknown analyser failure {type(e).__name__}>", [], False)], "out_reads": [],
                      "out_arg": True, "unknown": [repr(e)[:200]], "inlined": [], "assumed_pure": []}
